@@ -417,6 +417,8 @@ func runC14(c *report.Ctx) {
 		}
 	}
 	ruleChildPure(c)
+	ruleParsedKeyFixedWidth(c)
+	ruleNoAppendToKeyFields(c)
 }
 
 // edgeAtoms returns the atom of edge from→to.
